@@ -73,7 +73,10 @@ var retryableErrs []error = []error{
 	context.DeadlineExceeded,
 }
 
-var errorStrMap map[string]error = map[string]error{}
+var errorStrMap map[string]error = map[string]error{
+	// retryable at the origin (see retryableErrs), so it must be recognised by a remote caller too
+	context.DeadlineExceeded.Error(): context.DeadlineExceeded,
+}
 
 func errorDef(str string, retryable bool) error {
 	err := &Error{
